@@ -836,6 +836,10 @@ func c11ConstructorsAsk(w *World, r *Report) {
 // used for metadata calls (Fd, Sync, Stat, Name), comparisons, or be handed to in-module functions that
 // obey the same restriction.
 func c11SysUses(w *World, r *Report) {
+	sysUses(w, r, "C11-a", "the raw *os.File from Sys() escapes the Writable gate: ")
+}
+
+func sysUses(w *World, r *Report, rule, msg string) {
 	allowed := map[string]bool{"Fd": true, "Sync": true, "Stat": true, "Name": true, "SyscallConn": true}
 	var checkUses func(v ssa.Value, depth int) string
 	seen := map[ssa.Value]bool{}
@@ -915,8 +919,8 @@ func c11SysUses(w *World, r *Report) {
 					why = checkUses(ex, 0)
 				}
 			}
-			r.Check(why == "", "C11-a", fnName(fn), "Sys() result used for metadata only #"+ordinal(fn, c), w.relFile(c.Pos()),
-				"only Fd/Sync/Stat/Name and in-module helpers with the same restriction", "the raw *os.File from Sys() escapes the Writable gate: "+why)
+			r.Check(why == "", rule, fnName(fn), "Sys() result used for metadata only #"+ordinal(fn, c), w.relFile(c.Pos()),
+				"only Fd/Sync/Stat/Name and in-module helpers with the same restriction", msg+why)
 		}
 	}
 }
